@@ -412,25 +412,39 @@ def term_definite_difference(a, b, depth=0):
             not (ka == "const" and not isinstance(a[1], (int, float))) and not (kb == "const" and not isinstance(b[1], (int, float))):
         # index arithmetic over loop variables / constants
         # the element of an enumerate() loop may be the same object as a loop-dependent subscript of the iterated container
-        # (X[n] inside `for n, x in enumerate(X)`): such a pair is never a definite difference
-        def _enum_elem(t_):
-            return any(isinstance(x_, tuple) and len(x_) == 3 and x_[0] == "elem" and x_[2] == 1 for x_ in _walk_terms(t_))
+        # (X[n] inside `for n, x in enumerate(X)`): such a pair of ATOMS is never a definite difference
+        def _base_of(t_):
+            while isinstance(t_, tuple) and t_ and t_[0] == "attr":
+                t_ = t_[1]
+            return t_
 
-        def _moving_sub(t_):
-            return any(isinstance(x_, tuple) and x_ and x_[0] == "sub" and any(isinstance(y_, tuple) and y_ and y_[0] in ("loopvar", "elem", "mu") for y_ in _walk_terms(x_[2]))
-                       for x_ in _walk_terms(t_))
-        if (_enum_elem(a) and _moving_sub(b)) or (_enum_elem(b) and _moving_sub(a)):
-            return None
+        def _is_enum_elem(t_):
+            t_ = _base_of(t_)
+            return isinstance(t_, tuple) and len(t_) == 3 and t_[0] == "elem" and t_[2] == 1
+
+        def _is_moving_sub(t_):
+            t_ = _base_of(t_)
+            return isinstance(t_, tuple) and t_ and t_[0] == "sub" and any(isinstance(y_, tuple) and y_ and y_[0] in ("loopvar", "elem", "mu") for y_ in _walk_terms(t_[2]))
         try:
             lv = {}
+            used = [set(), set()]
+            side = [0]
 
             def at(t):
                 if t[0] in ("loopvar", "elem", "sym", "sub", "attr"):
+                    used[side[0]].add(t)
                     return lv.setdefault(t, sp.Symbol(f"i{len(lv)}", integer=True))
                 return None
             tr = Translator(at)
             tr.ufuncs = False
-            ea, eb = tr.tr(a), tr.tr(b)
+            side[0] = 0
+            ea = tr.tr(a)
+            side[0] = 1
+            eb = tr.tr(b)
+            only_a, only_b = used[0] - used[1], used[1] - used[0]
+            if (any(_is_enum_elem(x_) for x_ in only_a) and any(_is_moving_sub(x_) for x_ in only_b)) or \
+                    (any(_is_enum_elem(x_) for x_ in only_b) and any(_is_moving_sub(x_) for x_ in only_a)):
+                return None
             if sp.expand(ea - eb) != 0:
                 return f"index {sp.sstr(ea)} vs {sp.sstr(eb)}"
             return None         # the same index written differently: not a difference at all
